@@ -363,5 +363,6 @@ def run(chk, tier, only_rule=None):
     r14_5(chk, facts)
     r14_6(chk, facts)
     r14_7(chk, facts)
-    from . import c05
+    from . import c05, c04
+    c04.r04_7(chk, F.load(['core'], tier))     # array indices of wide-character pointers go through dec_to_integer
     c05.r05_12(chk, tier, units=('core', 'patch'))     # object keys of wide-character documents are compared whole
